@@ -80,20 +80,22 @@ def rstr(r):
     return f"{op}({','.join(rstr(x) for x in r[1:] if isinstance(x, tuple))})"
 
 
-def judge(expr, text, render, timeout_ms):
+def judge(expr, text, render, timeout_ms, parser=None, float_key=None):
     """value(expr) == value(parse(text)) for all leaf values (on the common definedness domain).
     Returns (verdict, detail, model_or_None, leaf_map)"""
     from symplyphysics.docs.printer_code import code_str
     e = sp.sympify(expr)
     if isinstance(e, sp.core.relational.Relational):
         sides = [("lhs", e.lhs), ("rhs", e.rhs)]
-        whole, leaf_map = exprparse.abstract_leaves(sp.Add(e.lhs, e.rhs, evaluate=False), render)
+        whole, leaf_map = exprparse.abstract_leaves(sp.Add(e.lhs, e.rhs, evaluate=False), render, float_key)
     else:
         sides = [("expr", e)]
-        whole, leaf_map = exprparse.abstract_leaves(e, render)
+        whole, leaf_map = exprparse.abstract_leaves(e, render, float_key)
     try:
-        parsed = exprparse.parse(text, leaf_map)
+        parsed = (parser or exprparse.parse)(text, leaf_map)
     except exprparse.ParseError as ex:
+        if type(ex).__name__ == "AdjacentNumerals":
+            return "candidate", str(ex), None
         return "out_of_grammar", str(ex), None
     if isinstance(parsed, tuple):
         if len(sides) != 2:
@@ -108,9 +110,8 @@ def judge(expr, text, render, timeout_ms):
     q = Query(None, timeout_ms=timeout_ms)
     worst = "unsat"
     for (nm, orig), got in zip(sides, psides):
-        ab, _ = exprparse.abstract_leaves(orig, lambda node, _lm=leaf_map: render(node))
         # abstract_leaves builds fresh placeholders: map them onto the shared ones by rendering
-        ab2, lm2 = exprparse.abstract_leaves(orig, render)
+        ab2, lm2 = exprparse.abstract_leaves(orig, render, float_key)
         ab2 = ab2.xreplace({v: leaf_map[k] for k, v in lm2.items() if k in leaf_map})
         enc = Enc()
         try:
